@@ -200,6 +200,14 @@ func (x *g) body(n int, helpers []string, free bool) []Stmt {
 			body = append(body, x.stmtOf(x.assertion(kind)))
 		}
 		n -= 3
+		// next to it, one ordinary call repeated as often: a verdict taken from "the last group of repeated calls"
+		// then depends on which group a map hands out last
+		if x.r.Intn(2) == 0 {
+			pc := x.plain()
+			for i := 0; i < k; i++ {
+				body = append(body, x.stmtOf(pc))
+			}
+		}
 	}
 	for i := 0; i < n; i++ {
 		var s Stmt
